@@ -19,6 +19,7 @@ THEOREMS = [
     ("EG.props.C04", "C04_attempt_uses_current_list"),
     ("EG.props.C04", "C04_watch_last_report"),
     ("EG.props.C04", "C04_watch_generations_isolated"),
+    ("EG.props.C04", "C04_watch_siblings_harmless"),
     ("EG.props.C04", "C04_checker_accepts_balanced"),
     ("EG.props.C04", "C04_checker_sound_segment"),
     ("EG.props.C04", "C04_checker_sound_history"),
@@ -220,6 +221,7 @@ def distribution(cases):
             d["reports"] = d.get("reports", 0) + len(o.get("reports") or [])
             d["watch_after1"] = d.get("watch_after1", 0) + (i.get("after1") is not None)
             d["watch_late_register"] = d.get("watch_late_register", 0) + bool(i.get("late"))
+            d["watch_siblings"] = d.get("watch_siblings", 0) + sum(st.get("n", 0) for st in i.get("steps") or [] if st.get("kind") == "siblings")
             d["watch_regen"] = d.get("watch_regen", 0) + sum(1 for st in i.get("steps") or [] if st.get("kind") == "regen")
             d["watch_rereg"] = d.get("watch_rereg", 0) + sum(1 for st in i.get("steps") or [] if st.get("kind") == "rereg")
             d["selections"] += len(o.get("picks") or [])
